@@ -571,7 +571,11 @@ func (c *compiler) compile(tok *token) []instruction {
 	case "return":
 		if len(tok.Tokens) == 1 && tok.Tokens[0].Symbol == "call" {
 			returns := c.compileAll(tok.Tokens)
-			returns[len(returns)-1].B = reg(c.Returns[len(c.Returns)-1])
+			// a call of a script or native function is asked for as many results as the function declares;
+			// builtins (append, len, ...) and conversions use operand B for something else
+			if last := &returns[len(returns)-1]; last.Code == codeCall || last.Code == codeCallVariadic {
+				last.B = reg(c.Returns[len(c.Returns)-1])
+			}
 			res = append(res, returns...)
 			res = append(res, instruction{Code: codeReturn, A: reg(c.Returns[len(c.Returns)-1])})
 			break
